@@ -1,20 +1,24 @@
 package main
 
-import "golang.org/x/tools/go/ssa"
+import (
+	"fmt"
+
+	"golang.org/x/tools/go/ssa"
+)
 
 func init() {
-	register("C22", []string{".", "./vfs/atomicfs"}, runC22)
-	propExplain["C22"] = "Decides the ordering clause of C22: in every path of versionSet.UpdateVersionLocked / initNewDB / createManifest the MANIFEST write protocol holds (create ⊢ dir sync; Next ⊢ Encode ⊢ Flush ⊢ file Sync ⊢ marker Move ≺ success), the in-memory version is installed only through the nil-error edge of that I/O, failures are fatal, the protocol runs under the manifest lock, and only the three owner functions install versions / move the marker. Does not decide that recovery picks the right edits (value-level)."
+	register("C22", []string{".", "./vfs/atomicfs", "./internal/manifest", "./record"}, runC22)
+	propExplain["C22"] = "Decides the ordering clause of C22: in every path of versionSet.UpdateVersionLocked / initNewDB / createManifest the MANIFEST write protocol holds (create ⊢ dir sync; Next ⊢ Encode ⊢ Flush ⊢ file Sync ⊢ marker Move ≺ success), the in-memory version is installed only through the nil-error edge of that I/O, failures are fatal, the protocol runs under the manifest lock, and only the three owner functions install versions / move the marker. Also the error-identity clause of recovery: recoverVersion tells a torn MANIFEST tail from corruption by comparing errors with ==, so no function in the call trees of record.Reader.Next and VersionEdit.Decode may return a wrapped callee error. Does not decide that recovery picks the right edits (value-level)."
 }
 
 func manifestSteps() []Step {
 	return []Step{
 		{Name: "createManifest", M: CallTo("p.(*versionSet).createManifest"), Gated: true, Free: true},
 		{Name: "SyncDir", M: MethodOn("SyncDir", "manifestMarker"), Gated: true, Also: "dirsynced|norotate", Need: []string{"ok:createManifest"}},
-		{Name: "manifest.Next", M: MethodOn("Next", "vs.manifest"), Gated: true, Need: []string{"dirsynced|norotate"}},
+		{Name: "manifest.Next", M: MethodOn("Next", "recv.manifest"), Gated: true, Need: []string{"dirsynced|norotate"}},
 		{Name: "ve.Encode", M: CallTo("man.(*VersionEdit).Encode"), Gated: true},
-		{Name: "manifest.Flush", M: MethodOn("Flush", "vs.manifest"), Gated: true},
-		{Name: "manifestFile.Sync", M: MethodOn("Sync", "vs.manifestFile"), Gated: true},
+		{Name: "manifest.Flush", M: MethodOn("Flush", "recv.manifest"), Gated: true},
+		{Name: "manifestFile.Sync", M: MethodOn("Sync", "recv.manifestFile"), Gated: true},
 		{Name: "marker.Move", M: MethodOn("Move", "manifestMarker"), Gated: true, Also: "moved|norotate", Need: []string{"ok:manifestFile.Sync", "dirsynced|norotate"}},
 	}
 }
@@ -25,16 +29,24 @@ func runC22(c *Ctx) {
 		// C22.O1a: the I/O closure
 		clo := c.ClosureWith("C22.O1a", outer, CallTo("man.(*VersionEdit).Encode"))
 		if clo != nil {
+			rot := rotationGuardPath(clo)
+			if rot == "" {
+				c.Unresolved("C22.O1a", "could not identify the manifest-rotation guard (the file number passed to createManifest)")
+			}
 			fl := NewFlow(c.P).
-				Edge("dirsynced|norotate", ZeroGuard("newManifestFileNum")).
-				Edge("moved|norotate", ZeroGuard("newManifestFileNum"))
+				Edge("dirsynced|norotate", ZeroGuard(rot)).
+				Edge("moved|norotate", ZeroGuard(rot))
 			res := c.Chain("C22.O1a", clo, fl, manifestSteps()...)
 			c.RequireAtSuccess("C22.O1a", res, "Encode+Flush+Sync+Move", []string{"ok:ve.Encode", "ok:manifest.Flush", "ok:manifestFile.Sync", "moved|norotate"})
 		}
 		// C22.O1b: installation only through the closure's nil edge
+		rot := ""
+		if clo != nil {
+			rot = rotationGuardPath(clo)
+		}
 		fl := NewFlow(c.P).
-			Edge("dirsynced|norotate", ZeroGuard("newManifestFileNum")).
-			Edge("moved|norotate", ZeroGuard("newManifestFileNum")).
+			Edge("dirsynced|norotate", ZeroGuard(rot)).
+			Edge("moved|norotate", ZeroGuard(rot)).
 			Edge("noedit", ZeroGuard("VE"))
 		steps := manifestSteps()
 		for i := range steps {
@@ -56,8 +68,8 @@ func runC22(c *Ctx) {
 	if fn := c.Fn("C22.O2", "p.(*versionSet).initNewDB"); fn != nil {
 		res := c.Chain("C22.O2", fn, nil,
 			Step{Name: "createManifest", M: CallTo("p.(*versionSet).createManifest"), Gated: true},
-			Step{Name: "manifest.Flush", M: MethodOn("Flush", "vs.manifest"), Gated: true},
-			Step{Name: "manifestFile.Sync", M: MethodOn("Sync", "vs.manifestFile"), Gated: true},
+			Step{Name: "manifest.Flush", M: MethodOn("Flush", "recv.manifest"), Gated: true},
+			Step{Name: "manifestFile.Sync", M: MethodOn("Sync", "recv.manifestFile"), Gated: true},
 			Step{Name: "SyncDir", M: MethodOn("SyncDir", "manifestMarker"), Gated: true},
 			Step{Name: "marker.Move", M: MethodOn("Move", "manifestMarker"), Gated: true},
 		)
@@ -88,6 +100,13 @@ func runC22(c *Ctx) {
 		}
 		c.RequireAtSuccess("C22.O3", res, "snapshot.Encode", []string{"ok:snapshot.Encode"})
 	}
+	// C22.E2: the torn-tail classification in recoverVersion compares errors by identity, so the
+	// record reader and the version-edit decoder must hand the reader's sentinels on unwrapped.
+	if fn := c.Fn("C22.E2", "p.recoverVersion"); fn != nil {
+		if n := c.ErrIdentity("C22.E2", fn, "rec.IsInvalidRecord"); n < 4 {
+			c.Unresolved("C22.E2", fmt.Sprintf("only %d functions found below recoverVersion's identity-compared errors (record.Reader.Next and VersionEdit.Decode with its helpers expected)", n))
+		}
+	}
 	// C22.W1: only the owners install versions, move the marker, or set the manifest bookkeeping.
 	c.Who("C22.W1", FuncRef("p.(*versionSet).append"), "versionSet.append only from owners",
 		"p.(*versionSet).UpdateVersionLocked", "p.(*versionSet).initNewDB", "p.(*versionSet).initRecoveredDB")
@@ -104,7 +123,7 @@ func runC22(c *Ctx) {
 			KillAfter("held:manifestlog", CallTo("p.(*versionSet).logUnlock", "p.(*versionSet).logUnlockAndInvalidatePickedCompactionCache"))
 		res := fl.Analyze(outer, emptyState())
 		c.noteFlow(fl)
-		n := c.Require("C22.R1", res, DynCall("updateFn"), "updateFn runs under the manifest lock", []string{"held:manifestlog"})
+		n := c.Require("C22.R1", res, DynCall(ParamName(outer, 1)), "updateFn runs under the manifest lock", []string{"held:manifestlog"})
 		n += c.Require("C22.R1", res, CallTo("p.(*versionSet).append"), "version installed under the manifest lock", []string{"held:manifestlog"})
 		if n < 2 {
 			c.Unresolved("C22.R1", "updateFn call / vs.append not found in UpdateVersionLocked")
@@ -115,4 +134,16 @@ func runC22(c *Ctx) {
 			c.Ob("C22.R1", outer, "deferred logUnlock", c.P.Pos(outer.Pos()), true, "")
 		}
 	}
+}
+
+// rotationGuardPath: the access path of the value passed as the new file number to
+// createManifest — the variable whose zero-ness decides whether the MANIFEST is rotated.
+func rotationGuardPath(fn *ssa.Function) string {
+	for _, in := range instrs(fn, CallTo("p.(*versionSet).createManifest")) {
+		args := in.(*ssa.Call).Common().Args
+		if len(args) >= 3 {
+			return pathOf(args[2])
+		}
+	}
+	return ""
 }
